@@ -25,7 +25,10 @@ RULE = ("documents: every forest with <=3 (quick) / <=4 (thorough) nodes over ta
         "stream of random events is run model-vs-implementation only.  Outside the property's domain (malformed stream, empty "
         "filter, functions, multi-valued or unusable criteria, cases inside the open finding) a model/implementation "
         "difference is recorded in the notes, not a verdict.  Non-trivial: the filter keeps something and drops "
-        "something.  Distinct by (document, filter, configuration).")
+        "something.  String-only filters are judged on every document: the kept nodes must be exactly the matching text runs "
+        "(segmented at every tag, kept or dropped; stored without element context); where that differs from the matching "
+        "strings of the full parse the case falls under the open finding C16-string-filter-lost-context.  "
+        "Distinct by (document, filter, configuration).")
 ASSUMPTIONS = ["regular expressions / functions in filters are parameters of the model, instantiated per case by truth tables",
                "the theorems are stated about the frame machine (zfeed); C16_frame_machine_is_heap_machine proves, for every "
                "configuration, filter and event sequence, that the heap machine (Model/Build.v + the two checks, compared link by "
@@ -270,6 +273,20 @@ def same_modulo_split(impl_sh, model_sh):
     return all(same_modulo_split(a, b) for a, b in zip(impl_sh[4], model_sh[4]))
 
 
+ASCII_WS = " \n\t\x0c\r"
+
+
+def unctx(o):
+    """A string of the full parse as the document level would have stored it (no enclosing element)."""
+    from bs4.element import PreformattedString
+    if isinstance(o, PreformattedString):
+        return shape(o)
+    t = str(o)
+    if all(ch in ASCII_WS for ch in t):
+        t = "\n" if "\n" in t else " "
+    return ("str", 0, t)
+
+
 def oracle_outermost(full_root, q, forest):
     out = []
     for c in full_root.contents:
@@ -319,12 +336,24 @@ def judge(ctx, case, q, full, sel, cfg, via):
     if kind == "string":
         if has_function(q) or S.unusable_crits(q):
             return "outside"
-        if any(t.name in ctxnames for t in full.find_all(True)):
-            return "outside"                      # a dropped element would have changed how its text is stored
         string, _ = S.o_effective(q)
-        exp = [shape(s) for s in T.preorder(full) if not isinstance(s, Tag) and S.o_crit_val(string, str(s), ("str", str(s)))]
-        if got != exp:
-            ctx.fail(dict(case, via=via), "string-only filter does not keep exactly the matching text runs", got, exp)
+        strs = [s for s in T.preorder(full) if not isinstance(s, Tag)]
+        keep = lambda sh: S.o_crit_val(string, sh[2], ("str", sh[2]))
+        # by the letter: the strings of the full parse that the filter matches
+        letter = [shape(s) for s in strs if keep(shape(s))]
+        # the text runs as the document level stores them (every tag is dropped, so no element context applies):
+        # same segmentation as the full parse (endData runs at every tag, kept or not), comment-like strings as
+        # sent, everything else default class and whitespace-collapsed
+        runs = [unctx(s) for s in strs]
+        expected = [r for r in runs if keep(r)]
+        if got != expected:
+            ctx.fail(dict(case, via=via), "string-only filter does not keep exactly the matching text runs of the document", got, expected)
+        elif got != letter:
+            ctx.count("cases_in_string_filter_finding")
+            if ctx.counts["cases_in_string_filter_finding"] <= 30:
+                ctx.fail(dict(case, via=via, text_runs_kept=expected, context_elements=sorted({t.name for t in full.find_all(True)} & ctxnames)),
+                         "string-only filter: kept text runs differ from the matching strings of the full parse", got, letter,
+                         tag="string-filter-lost-context")
         return "string"
     if kind == "mixed":
         if got != []:
@@ -419,7 +448,7 @@ def run_batch(ctx, items):
         in_dom = False
         if flags and verdict != "outside":
             tagf, strf, mixf, names_ok, single, ctx_ok, ctx_free = flags
-            in_dom = bool((tagf and single and ctx_ok and not has_function(q)) or (strf and ctx_free) or mixf)
+            in_dom = bool((tagf and single and ctx_ok and not has_function(q)) or strf or mixf)
         impl_sh = [impl_shape_raw(c, multi) for c in sel.contents]
         hsh = [model_pshape(p, None) for p in heap_nodes]
         problem = None
@@ -548,7 +577,7 @@ def run(ctx):
 
 
 def too_many(ctx):
-    return len([f for f in ctx.failures if f.get("tag") != "rejected-context-ancestor"]) + len(ctx.disagreements) > 40
+    return len([f for f in ctx.failures if f.get("tag") not in ("rejected-context-ancestor", "string-filter-lost-context")]) + len(ctx.disagreements) > 40
 
 
 # ----------------------------------------------------------------------------------- known finding
@@ -571,10 +600,28 @@ def matcher_context(f):
         return False
 
 
-KNOWN_MATCHERS = {"rejected_context_ancestor": matcher_context}
+def matcher_string_context(f):
+    """String-only filter: what was kept is exactly the matching text runs stored without element context, the
+    document has a whitespace-preserving / string-container element, and that differs from the full parse."""
+    if f.get("tag") != "string-filter-lost-context":
+        return False
+    import json
+    norm = lambda x: json.loads(json.dumps(x))
+    case = f.get("case") or {}
+    return (norm(f.get("observed")) == norm(case.get("text_runs_kept")) and norm(f.get("observed")) != norm(f.get("expected"))
+            and bool(case.get("context_elements")))
+
+
+KNOWN_MATCHERS = {"rejected_context_ancestor": matcher_context, "string_filter_lost_context": matcher_string_context}
 
 
 def replay_known(ctx, k):
+    if k.get("id") == "C16-string-filter-lost-context":
+        with warnings.catch_warnings():
+            warnings.simplefilter("ignore")
+            sel = BeautifulSoup("<pre> \n </pre>", "html.parser", parse_only=SoupStrainer(string=" \n "))
+            full = BeautifulSoup("<pre> \n </pre>", "html.parser")
+            return len(sel.contents) == 0 and full.find(string=" \n ") is not None
     with warnings.catch_warnings():
         warnings.simplefilter("ignore")
         mk = k.get("witness", {}).get("markup", "<pre><b> \n </b></pre>")
